@@ -2,6 +2,7 @@
 use crate::run::Builder;
 pub mod mutex;
 pub mod sem;
+pub mod chan;
 pub mod rwlock;
 pub mod flag;
 
@@ -9,6 +10,7 @@ pub fn lookup(name: &str) -> Option<Builder> {
     match name {
         "mutex" => Some(mutex::build),
         "sem" => Some(sem::build),
+        "chan" => Some(chan::build),
         "rwlock" => Some(rwlock::build),
         "flag" => Some(flag::build),
         _ => None,
